@@ -606,7 +606,16 @@ func (c *FCtx) applyUse(se *SpecEnv, u *Clause, st *State) {
 			if a == nil || b == nil {
 				panic(specFail("ext needs two slices"))
 			}
+			// extensionality of byte sequences, used as a two-step lemma: elementwise equality is proved as an
+			// obligation of its own (so that the quantified facts are instantiated at its skolem constant), then
+			// the equality of the abstract byte values is available
+			name := u.Label
+			if name == "" {
+				name = fmt.Sprintf("line %d", u.Line)
+			}
+			c.oblige(st, "assert", fmt.Sprintf("use(ext %s)", name), token.NoPos, se.contentEq(a, b), u.Text)
 			st.assume(Implies(se.contentEq(a, b), Eq(c.bytesOf(se.Cur, a), c.bytesOf(se.Cur, b))))
+			st.assume(Eq(c.bytesOf(se.Cur, a), c.bytesOf(se.Cur, b)))
 			return
 		case "assume":
 			// explicit, listed assumption
